@@ -552,9 +552,12 @@ impl StrokeCtx {
             }
         }
         let tan = c.p3 - self.last_pt;
-        self.do_join(&style, tan);
-        self.do_line(&style, tan, c.p3);
-        self.last_tan = tan;
+        // A cusp can fall on the end point (up to rounding); there is no segment after it then.
+        if tan != Vec2::ZERO {
+            self.do_join(&style, tan);
+            self.do_line(&style, tan, c.p3);
+            self.last_tan = tan;
+        }
         self.do_join(&style, tan1);
     }
 }
